@@ -166,17 +166,7 @@ macro_rules
       streamFlush_apply, unwrapAt_some, unwrapAt_none, attempt_apply', attemptPair_ok,
       attemptPair_err, attemptPair_panic, andThen_ok, andThen_err, andThen_panic, $ls,*])
 
-/-! ### the codec never reports `ConnectionClosed` -/
-
-theorem codec_bufferFrame_ne_cc (c : Codec) (t : Transport) (f : Frame) :
-    (c.bufferFrame t f).2.2 ≠ Res.err Err.connectionClosed := by
-  have h := (Codec.bufferFrame_spec c t f).cases
-  intro hc
-  rw [hc] at h
-  rcases h with ⟨h, _⟩ | ⟨h | ⟨k, h⟩, _⟩ <;> cases h
-
-theorem codec_readFrame_ne_cc (c : Codec) (t : Transport) (m : Option Nat) (u a : Bool) :
-    (c.readFrame t m u a).2.2 ≠ Res.err Err.connectionClosed :=
-  (Codec.readFrame_spec c t m u a).notClosed
+/-! `codec_bufferFrame_ne_cc` / `codec_readFrame_ne_cc` (the codec never reports
+`ConnectionClosed`) live in `EndpointBasic`. -/
 
 end WsProofs.Tie
